@@ -15,7 +15,10 @@ knots) must equal the mathematically intended map applied to the evaluation befo
 per-axis scaling, right-handed rotation by +theta about the axis (Rodrigues, numpy), reflection in the
 plane through the origin, zeroing of coordinates, padding/dropping of coordinates; weights of
 rational objects bit-identical, knot vectors/orders/periodicity unchanged, in-place forms return the
-receiver, infix forms return a new object and leave the receiver untouched.
+receiver, infix forms return a new object and leave the receiver untouched.  Tolerances: control points must
+be the exactly transformed ones to 64 ulp; evaluated points to 1e-6 of the size of the EXPECTED CHANGE plus
+a 1e-12 rounding floor (never looser than 1e-9 of the magnitude), so a near-identity transform that is
+silently dropped fails.
 """
 from fractions import Fraction as F
 import math
@@ -38,13 +41,15 @@ RULE = ('objects: pardim 1-3 x dim 2-3, rational (positive weights) or not, open
         'short/long vectors, no args), rotate (rational half-angle cos/sin incl. 0 and > pi, axes = +-coordinate axes and '
         'Pythagorean directions in all octants, default normal, 2-D objects out of plane), mirror (unit and non-unit normals; '
         '2-D => RuntimeError), project (all planes/axes), set_dimension up/down, force_rational, operator forms in-place, infix '
-        'and reflected with python and numpy operands; a seventh of the objects carry integer-dtype control-point arrays.  non-trivial = at least one op succeeded and changed the control points.')
+        'and reflected with python and numpy operands; a seventh of the objects carry integer-dtype control-point arrays; near-identity transforms (scale factors 1 +- 1e-3..1e-7 scalar/per-axis via scale, *, /, *=, /=; tiny translations and rotations) singly and in repetitions of 10-40.  non-trivial = at least one op succeeded and changed the control points.')
 REQUIRED_TAGS = ['op=translate', 'op=scale', 'op=rotate', 'op=mirror', 'op=project', 'op=set_dimension', 'op=force_rational',
                  'op=iadd', 'op=isub', 'op=imul', 'op=itruediv', 'op=add', 'op=radd', 'op=sub', 'op=mul', 'op=rmul', 'op=div',
                  'pardim=1', 'pardim=2', 'pardim=3', 'dim=2', 'dim=3', 'rational', 'periodic-dir',
                  'translate-promote', 'translate-promote-rational', 'scale-per-axis-rational', 'rotate-2d', 'rotate-3d',
                  'rotate-out-of-plane', 'rotate-neg-z-2d', 'mirror-3d', 'mirror-rational', 'err:RuntimeError', 'err:IndexError',
-                 'numpy-left-operand', 'set_dimension-down-rational', 'seq>=3', 'int-dtype']
+                 'numpy-left-operand', 'set_dimension-down-rational', 'seq>=3', 'int-dtype',
+                 'near-identity:scale', 'near-identity:scale-per-axis', 'near-identity:scale-div', 'near-identity:translate',
+                 'near-identity:rotate', 'near-identity:repeated']
 
 TRANSLATE_OPS = ('translate', 'iadd', 'isub', 'add', 'radd', 'sub')
 SCALE_OPS = ('imul', 'itruediv', 'mul', 'rmul', 'div')
@@ -86,6 +91,47 @@ def _factor(rng, nonzero=False):
     return rng.choice(c)
 
 
+# relative offsets from the identity: decimal ones (non-dyadic floats) and dyadic ones (cheap exact rationals, used in
+# long repetitions); all well below / around numpy's allclose tolerances 1e-5 / 1e-8
+_OFFSETS = [1e-3, 1e-4, 1e-5, 5e-6, 4e-6, 1e-6, 3e-7, 1e-7, 2.0 ** -10, 2.0 ** -13, 2.0 ** -17, 2.0 ** -20, 2.0 ** -23]
+
+
+def _near_one(rng):
+    return 1.0 + rng.choice([1, -1]) * rng.choice(_OFFSETS)
+
+
+def _gen_near(rng, dim, rational):
+    """A near-identity op: scale factors 1 +- 1e-3..1e-7, tiny translations, tiny rotations."""
+    r = rng.random()
+    if r < 0.6:
+        form = rng.choice(['scale1', 'scaleN', 'scaleL', 'imul', 'itruediv', 'mul', 'div', 'rmul', 'imulN', 'divN'])
+        if form == 'scale1':
+            return {'op': 'scale', 'args': [_near_one(rng)], 'as': 'list'}
+        if form == 'scaleN':
+            return {'op': 'scale', 'args': [_near_one(rng) for _ in range(dim)], 'as': 'list'}
+        if form == 'scaleL':
+            return {'op': 'scale', 'args': [[_near_one(rng) for _ in range(dim)]], 'as': _seq_as(rng)}
+        if form in ('imul', 'itruediv', 'mul', 'div', 'rmul'):
+            return {'op': form, 'a': _near_one(rng), 'as': 'float'}
+        if form == 'imulN':
+            return {'op': rng.choice(['imul', 'mul']), 'a': [_near_one(rng) for _ in range(dim)], 'as': _seq_as(rng)}
+        return {'op': rng.choice(['itruediv', 'div']), 'a': [_near_one(rng) for _ in range(dim)], 'as': 'ndarray'}
+    if r < 0.8:
+        name = rng.choice(['translate', 'iadd', 'isub', 'add', 'sub'])
+        x = [rng.choice([1, -1, 3, 0]) * rng.choice(_OFFSETS) for _ in range(dim)]
+        if not any(x):
+            x[0] = 2.0 ** -20
+        return {'op': name, 'x': x, 'as': _seq_as(rng)}
+    # tiny rotation: half-angle parameter m = +-2^-k, theta ~ 4 m
+    m = F(rng.choice([1, -1]), 2 ** rng.choice([10, 12, 15, 18, 20, 22]))
+    ch, sh = (1 - m * m) / (1 + m * m), 2 * m / (1 + m * m)
+    if rng.random() < 0.5:
+        normal, norm = ([0, 0, 1], 1) if rng.random() < 0.5 else (None, 1)
+    else:
+        normal, norm = _direction(rng)
+    return {'op': 'rotate', 'ch': [ch.numerator, ch.denominator], 'sh': [sh.numerator, sh.denominator], 'normal': normal, 'norm': norm}
+
+
 def _seq_as(rng):
     return rng.choice(['list', 'tuple', 'ndarray'])
 
@@ -93,7 +139,9 @@ def _seq_as(rng):
 def _gen_op(rng, dim, rational, want=None):
     """One op for an object of the given current dimension.  Returns (op, new_dim, new_rational, ok)."""
     fam = want or rng.choice(['translate', 'translate', 'scale', 'scale', 'rotate', 'rotate', 'rotate', 'mirror', 'mirror',
-                              'project', 'set_dimension', 'force_rational', 'optr', 'optr', 'opsc', 'opsc'])
+                              'project', 'set_dimension', 'force_rational', 'optr', 'optr', 'opsc', 'opsc', 'near', 'near'])
+    if fam == 'near':
+        return _gen_near(rng, dim, rational), dim, rational, True
     if fam in ('translate', 'optr'):
         name = 'translate' if fam == 'translate' else rng.choice(['iadd', 'isub', 'add', 'radd', 'sub'])
         r = rng.random()
@@ -192,6 +240,7 @@ _FOCUS = [
     ['rotate'], ['mirror'], ['translate'], ['scale'], ['project'], ['optr'], ['opsc'], ['set_dimension', 'rotate'],
     ['force_rational', 'scale'], ['force_rational', 'translate'], ['set_dimension', 'mirror'], ['rotate', 'rotate'],
     ['mirror', 'mirror'], ['translate', 'rotate', 'scale'], ['opsc', 'optr', 'rotate'], ['set_dimension', 'set_dimension'],
+    ['near'], ['near'], ['near', 'near', 'near'], ['force_rational', 'near'], ['scale', 'near', 'translate'], ['near', 'optr', 'near'],
 ]
 
 
@@ -233,6 +282,25 @@ def generate(rng, tier):
         (i3r, [{'op': 'project', 'plane': 'xy'}, {'op': 'set_dimension', 'n': 2}, {'op': 'force_rational'}, {'op': 'iadd', 'x': [0.5, 0.5], 'as': 'list'}]),
     ]:
         specs.append({'obj': o, 'ops': ops, 'params': _params(rng, o, 3), 'int_cps': True})
+    # near-identity transforms whose individual effect is far below the coordinate magnitude but accumulates
+    h17, h20 = 1.0 + 2.0 ** -17, 1.0 - 2.0 ** -20
+    m18 = F(1, 2 ** 18)
+    tiny_rot = {'op': 'rotate', 'ch': [((1 - m18 * m18) / (1 + m18 * m18)).numerator, ((1 - m18 * m18) / (1 + m18 * m18)).denominator],
+                'sh': [(2 * m18 / (1 + m18 * m18)).numerator, (2 * m18 / (1 + m18 * m18)).denominator], 'normal': None, 'norm': 1}
+    for o, ops in [
+        (o2, [{'op': 'scale', 'args': [1.0 + 5e-6], 'as': 'list'}]),
+        (o2, [{'op': 'div', 'a': 1.0 - 4e-6, 'as': 'float'}]),
+        (o3r, [{'op': 'scale', 'args': [1.0 + 4e-6, 1.0 - 3e-6, 1.0 + 8e-6], 'as': 'list'}]),
+        (o2r, [{'op': 'imul', 'a': h17, 'as': 'float'}] * 40),
+        (o2, [{'op': 'itruediv', 'a': h20, 'as': 'float'}] * 30),
+        (o3r, [{'op': 'mul', 'a': [h17, h20, h17], 'as': 'tuple'}] * 12),
+        (o2, [{'op': 'imul', 'a': 1.0 + 1e-6, 'as': 'float'}, {'op': 'iadd', 'x': [0.5, -0.25], 'as': 'list'}, {'op': 'itruediv', 'a': 1.0 + 1e-6, 'as': 'float'}]),
+        (o2r, [{'op': 'iadd', 'x': [2.0 ** -20, -2.0 ** -22], 'as': 'list'}] * 25),
+        (o2, [{'op': 'translate', 'x': [1e-6, 0.0], 'as': 'tuple'}, {'op': 'sub', 'x': [0.0, 3e-7], 'as': 'ndarray'}]),
+        (o2r, [tiny_rot] * 20),
+        (o3r, [dict(tiny_rot, normal=[2, -4, 4], norm=6)] * 10),
+    ]:
+        specs.append({'obj': o, 'ops': ops, 'params': _params(rng, o, 3)})
     nobj = 130 if tier == 'quick' else 1300
     for oi in range(nobj):
         pardim = [1, 2, 3, 1, 2, 1][oi % 6]
@@ -589,24 +657,43 @@ def oracle(sp, s):
                 fails.append(tag + 'weights of the rational object changed')
             if not rat0 and exp_rat and not np.all(ncp[..., -1] == 1.0):
                 fails.append(tag + 'force_rational did not give unit weights')
-            # evaluation commutes
+            # control points: the homogeneous map  P -> L P + w T(0)  applied exactly (to rounding: a few ulp)
+            eps = np.finfo(float).eps
+            phys0 = cps0[..., :dim0]
+            wts0 = cps0[..., -1:] if rat0 else np.ones(cps0.shape[:-1] + (1,))
+            t0 = T(np.zeros(cps0.shape[:-1] + (dim0,)))
+            exp_cp = T(phys0) + (wts0 - 1.0) * t0
+            got_cp = ncp[..., :new_dim]
+            cp_mag = float(np.max(np.abs(phys0), initial=0.0)) * max(1.0, lip) + float(np.max(np.abs(wts0 * t0), initial=0.0))
+            cp_err = float(np.max(np.abs(got_cp - exp_cp), initial=0.0))
+            if not (cp_err <= 64 * eps * cp_mag):
+                j = np.unravel_index(int(np.argmax(np.abs(got_cp - exp_cp).reshape(-1))), got_cp.shape)
+                fails.append(tag + 'control points are not the exactly transformed ones: |new - T(old)| = %.3g (allowed %.3g, expected change %.3g) at %s; new %r, expected %r, before %r'
+                             % (cp_err, 64 * eps * cp_mag, float(np.max(np.abs(exp_cp - _pad(phys0, new_dim)), initial=0.0)), j[:-1],
+                                got_cp[j[:-1]].tolist(), exp_cp[j[:-1]].tolist(), phys0[j[:-1]].tolist()))
+                return fails
+            # evaluation commutes; the tolerance is relative to the size of the EXPECTED CHANGE (plus a rounding floor), so a
+            # near-identity transform that is silently dropped fails although the points barely move
             exp = T(old_pts)
             new_pts = res.evaluate(*params).reshape(grid + (new_dim,))
             scale = 1.0 + float(np.max(np.abs(exp), initial=0.0)) + float(np.max(np.abs(old_pts), initial=0.0))
+            change = float(np.max(np.abs(exp - _pad(old_pts, new_dim)), initial=0.0))
+            floor = 1e-12 * (scale + cp_mag)
+            tol = min(1e-9 * scale, 1e-6 * change + floor)
             err = float(np.max(np.abs(new_pts - exp), initial=0.0))
-            if not (err <= 1e-9 * scale):
+            if not (err <= tol):
                 j = np.unravel_index(int(np.argmax(np.abs(new_pts - exp).reshape(-1))), new_pts.shape) if new_pts.size else ()
-                fails.append(tag + 'evaluation does not commute with the map: |new - T(old)| = %.3g (scale %.3g) at grid index %s; new %s, T(old) %s'
-                             % (err, scale, j[:-1], np.round(new_pts[j[:-1]], 12).tolist(), np.round(exp[j[:-1]], 12).tolist()))
+                fails.append(tag + 'evaluation does not commute with the map: |new - T(old)| = %.3g (allowed %.3g; expected change %.3g, scale %.3g) at grid index %s; new %s, T(old) %s'
+                             % (err, tol, change, scale, j[:-1], np.round(new_pts[j[:-1]], 12).tolist(), np.round(exp[j[:-1]], 12).tolist()))
                 return fails
             # composition: the map accumulated from the first object
             cum = T(cum)
-            cum_tol = lip * cum_tol + 2e-9 * scale
+            cum_tol = lip * cum_tol + 2.0 * floor
             o = res
         if s['ops'] and not fails:
             final = o.evaluate(*params).reshape(cum.shape)
             sc = 1.0 + float(np.max(np.abs(cum), initial=0.0))
-            if not float(np.max(np.abs(final - cum), initial=0.0)) <= 1e-9 * sc + 4.0 * cum_tol:
+            if not float(np.max(np.abs(final - cum), initial=0.0)) <= 1e-12 * sc + 4.0 * cum_tol:
                 fails.append('composition: final evaluation differs from the composed map applied to the first evaluation by %.3g'
                              % float(np.max(np.abs(final - cum))))
     return fails
@@ -666,8 +753,30 @@ def classify(s, res=None):
     return None
 
 
+def _near_identity(op, dim):
+    """Tag suffix when the op is a non-trivial transform within 2e-3 (relative) of the identity."""
+    k = op['op']
+    if k == 'scale' or k in SCALE_OPS:
+        want = _intended(op, dim) if dim <= 3 else None
+        if not isinstance(want, tuple):
+            return None
+        sv = want[1](np.ones(dim))
+        if np.all(np.abs(sv - 1.0) <= 2e-3) and np.any(sv != 1.0):
+            per_axis = len(set(sv.tolist())) > 1
+            return 'scale-per-axis' if per_axis else ('scale-div' if k in ('itruediv', 'div') else 'scale')
+        return None
+    if k in TRANSLATE_OPS:
+        x = np.array(op['x'], dtype=float)
+        return 'translate' if len(x) and np.any(x != 0) and np.all(np.abs(x) <= 2e-3) else None
+    if k == 'rotate':
+        sh = abs(float(_fr(op['sh'])))
+        return 'rotate' if 0 < sh <= 1e-3 and _fr(op['ch']) > 0 else None
+    return None
+
+
 def tags(s, res):
     out = set()
+    nrep = 0
     o = s['obj']
     out.add('pardim=%d' % len(o['bases']))
     if o['rational']:
@@ -685,6 +794,12 @@ def tags(s, res):
             first = False
         k = op['op']
         out.add('op=' + k)
+        ni = _near_identity(op, dim)
+        if ni:
+            out.add('near-identity:' + ni)
+            nrep += 1
+            if nrep >= 10:
+                out.add('near-identity:repeated')
         if k in TRANSLATE_OPS and len(op['x']) > dim:
             out.add('translate-promote')
             if rat:
